@@ -22,5 +22,4 @@ def main():
        "checks":checks,"not_applicable":na,
        "notes":"Exit codes of ./vf check: 0 ok, 1 replayed unlisted violation (VIOLATION line), 3 harness error / inconclusive verify obligation. Known findings: /verif/known_findings.json."}
     json.dump(m,open("MANIFEST.json","w"),indent=1)
-    import jsonschema
 if __name__=="__main__": main()
